@@ -1261,6 +1261,8 @@ var corpus = []scenario{
 	{Kind: "seq", SysEmail: true, Events: []string{"r:", "c:b:-:1", "r:", "r:", "c:g:-:1", "r:"}},
 	// POLICY file larger / smaller than the link (as in the repository's own test)
 	{Kind: "seq", Events: []string{"r:", "c:g:123:1", "r:", "c:g:9:1", "r:"}},
+	// a hand-written POLICY number with a leading zero and a digit 9: decimal for grep/expr/[ -gt ]
+	{Kind: "seq", Events: []string{"r:", "c:g:0190:1", "r:", "r:", "c:g:-:1", "r:"}},
 	// second invocation at every phase
 	{Kind: "seq", Events: []string{"r:5=n", "c:g:-:1", "r:12=n,30=n,50=n", "r:"}, Wrapper: true},
 	// commit while compiling: merge on pull
